@@ -128,6 +128,15 @@ def gen_plan(prop, seed, index, tier="quick"):
                     if r.random() < 0.6:
                         ops.append({"op": "sleep", "s": r.choice([0.0002, 0.001, 0.005])})
                     ops.append({"op": "seek", "tp": tp, "offset": r.randint(lo, hi) if hi > lo else lo})
+            elif x < 0.79:
+                if r.random() < 0.5:
+                    ops.append({"op": "pause", "tp": tp})
+                else:
+                    # seek_to_beginning()/seek_to_end(): possibly while another reset (the
+                    # initial lookup, an earlier seek_to_*) is still being answered
+                    ops.append({"op": r.choice(["seek_to_beginning", "seek_to_end"]), "tp": tp})
+                    if r.random() < 0.3:
+                        ops.append({"op": r.choice(["seek_to_beginning", "seek_to_end"]), "tp": tp})
             elif x < 0.8:
                 ops.append({"op": "pause", "tp": tp})
             elif x < 0.86:
@@ -211,17 +220,25 @@ class Ref:
         self.E = {}  # tp -> int | None (awaiting a reset result)
         self.reset_kind = {}  # tp -> "earliest" | "latest" | "none"
         self.reset_since = {}  # tp -> event seq after which replies count
+        self.seek_gen = {}  # tp -> number of seek()/seek_to_*() calls so far
         self.paused = set()
         self.oor_possible = {}  # tp -> True if the last seek target was out of range when issued
         self.replies = []  # (seq, tp, ts_kind, offset) ListOffsets replies served to us
         self.delivered = {}  # tp -> list of offsets
         self.seek_marks = {}  # tp -> (offset, seq) of last seek
         self.errors_seen = []
+        # a reply the client has received, or is about to receive, when seek_to_*() is called
+        # answers the call if it is of the same kind (the fetcher cannot tell them apart, and
+        # the answer is at most one network trip old): how old is "about to receive"
+        delays = [f["do"]["delay"] for f in plan.get("faults", [])
+                  if isinstance(f.get("do"), dict) and "delay" in f["do"]]
+        self.slack = 4 * plan["cluster"]["lat"][1] + 0.002 + (max(delays) if delays else 0.0)
+        self.reset_call_t = {}  # tp -> virtual time of the seek_to_*() call being answered
         world.subscribe("list_offsets_reply", self._on_lo)
 
     def _on_lo(self, broker, conn, req, tp, ts, off):
         if req.client_id == self.client_id:
-            self.replies.append((self.world.log.seq, tp, ts, off))
+            self.replies.append((self.world.log.seq, tp, ts, off, self.world.now()))
 
     def assign(self, tps):
         for tp in tps:
@@ -248,8 +265,11 @@ class Ref:
 
     def allowed_starts(self, tp):
         want = {"earliest": -2, "latest": -1}.get(self.reset_kind[tp])
-        return {off for (seq, t, ts, off) in self.replies
-                if t == tp and ts == want and seq >= self.reset_since[tp] and off >= 0}
+        since = self.reset_since[tp]
+        tcall = self.reset_call_t.get(tp)
+        return {off for (seq, t, ts, off, when) in self.replies
+                if t == tp and ts == want and off >= 0
+                and (seq >= since or (tcall is not None and tcall - when <= self.slack))}
 
     def out_of_range(self, tp, off):
         p = self.part(tp)
@@ -257,6 +277,7 @@ class Ref:
 
     # -- events -------------------------------------------------------------------------
     def on_seek(self, tp, off):
+        self.seek_gen[tp] = self.seek_gen.get(tp, 0) + 1
         self.E[tp] = off
         self.seek_marks[tp] = (off, self.world.log.seq)
         self.oor_possible[tp] = self.out_of_range(tp, off)
@@ -264,13 +285,21 @@ class Ref:
             # the broker may answer OFFSET_OUT_OF_RANGE: the reset policy applies
             self.reset_kind[tp] = self.policy
             self.reset_since[tp] = self.world.log.seq
+            self.reset_call_t.pop(tp, None)
             self.world.probe("seek_out_of_range")
 
     def on_seek_to(self, tp, kind):
+        self.seek_gen[tp] = self.seek_gen.get(tp, 0) + 1
+        if self.E.get(tp, 0) is None and not self.oor_possible.get(tp) \
+                and self.reset_kind.get(tp) == kind:
+            # still waiting for a reset result of this very kind: the reply to the lookup
+            # that is already in flight answers this call as well
+            return
         self.oor_possible[tp] = False
         self.E[tp] = None
         self.reset_kind[tp] = kind
         self.reset_since[tp] = self.world.log.seq
+        self.reset_call_t[tp] = self.world.now()
 
     def v(self, clause, data):
         self.world.violation(self.prop, clause, data)
@@ -498,7 +527,20 @@ def execute(plan):
                         continue
                     ref.on_seek_to(tp, "earliest" if kind == "seek_to_beginning" else "latest")
                     fn = consumer.seek_to_beginning if kind == "seek_to_beginning" else consumer.seek_to_end
-                    await fn(tpo(tp))
+                    mark = ref.seek_gen[tp]
+                    try:
+                        await asyncio.wait_for(fn(tpo(tp)), 10)
+                    except asyncio.TimeoutError:
+                        continue
+                    if ref.seek_gen.get(tp) == mark and ref.E.get(tp, 0) is None:
+                        # nobody sought since: the call returned, so the position is the answer
+                        # to a ListOffsets request of *this* kind
+                        try:
+                            pos = await asyncio.wait_for(consumer.position(tpo(tp)), 1.0)
+                        except asyncio.TimeoutError:
+                            continue
+                        if ref.seek_gen.get(tp) == mark and ref.E.get(tp, 0) is None:
+                            ref.on_position(tp, pos)
                 elif kind == "pause":
                     tp = tuple(op["tp"])
                     if tp in ref.E:
